@@ -2,7 +2,11 @@ use crate::fees::{min_fee_for_size, LinearFee};
 use crate::serialization::map_names::{TxBodyNames, WitnessSetNames};
 use crate::*;
 use num_traits::ToPrimitive;
+#[cfg(not(feature = "verif-hooks"))]
 use std::collections::HashSet;
+#[cfg(feature = "verif-hooks")]
+#[allow(unused_imports)]
+use crate::verif_hooks::{HashSet, SimNew};
 use crate::builders::fakes::fake_private_key;
 
 pub(super) struct CborCalculator();
